@@ -1,4 +1,6 @@
 fn main() {
+    // cfg flag used by external verification harnesses (see `verif_hooks` in lib.rs)
+    println!("cargo::rustc-check-cfg=cfg(parol_verif)");
     let default_enabled = std::env::var("CARGO_FEATURE_DEFAULT").is_ok();
     let regex_automata_enabled = std::env::var("CARGO_FEATURE_REGEX_AUTOMATA").is_ok();
 
